@@ -44,7 +44,7 @@ from modelx.core.space import (
     SpaceView,
     RefDict
 )
-from modelx.core.formula import NULL_FORMULA
+from modelx.core.formula import NULL_FORMULA, Formula
 from modelx.core.util import is_valid_name, AutoNamer
 from modelx.core.chainmap import CustomChainMap
 
@@ -1367,6 +1367,14 @@ class SpaceManager(SharedSpaceOperations):
 
         if not self._can_add(space, name, CellsImpl):
             raise ValueError("Cannot create cells '%s'" % name)
+
+        if not is_valid_name(name) and formula:
+            # The name is taken from the definition
+            defname = Formula(formula).name
+            if is_valid_name(defname):
+                if not self._can_add(space, defname, CellsImpl):
+                    raise ValueError("Cannot create cells '%s'" % defname)
+                name = defname
 
         cells = UserCellsImpl(
             space=space, name=name, formula=formula,
